@@ -22,6 +22,8 @@ func init() {
 		Run: runC16,
 	})
 	addMutants("C16",
+		mutant{"extended length written into a short pooled frame", "codec/websocket/frame.go",
+			"\tif len(*f) < frameMaxHeaderLength {\n\t\t*f = util.ExtendSlice(*f, frameMaxHeaderLength)\n\t}\n\n", "", "C16-R3"},
 		mutant{"client frames not masked", "codec/websocket/stream.go",
 			"\tif s.role == RoleClient {\n\t\tf.MaskPayload()\n\t}\n\ts.pendingFrames = append(s.pendingFrames, f)", "\ts.pendingFrames = append(s.pendingFrames, f)", "C16-R1"},
 		mutant{"masked after queuing is skipped for servers only check inverted", "codec/websocket/stream.go",
@@ -169,7 +171,7 @@ func runC16(c *Ctx) {
 	checkLengthTables(c, "C16")
 
 	// ------------------------------------------------------------------------------------------------ R3
-	c.rule("C16-R3", "bytes written = header + declared payload: WriteTo trims, SetPayload sets length before offset and resizes, pooled frames are reset, clients reserve the mask", 4)
+	c.rule("C16-R3", "bytes written = header + declared payload: WriteTo trims, SetPayload sets length before offset and resizes, pooled frames are reset, clients reserve the mask; header writes stay inside the slice", 6)
 	{
 		fn := writeTo
 		// the value written is phi[f, f[:end]] with end = payloadOffset()+PayloadLength(), trimmed under end < len(f)
@@ -291,6 +293,62 @@ func runC16(c *Ctx) {
 	}
 
 	// ------------------------------------------------------------------------------------------------ R4
+	// the header writes of setPayloadLength stay inside the slice: a pooled frame keeps the (possibly shorter) length of its
+	// previous use, so the slice is first made at least frameMaxHeaderLength long (or the write is guarded by its length)
+	{
+		extend := p.Fn("util", "ExtendSlice")
+		hdrMax, _ := constantInt(p.Const(ws, "frameMaxHeaderLength"))
+		n := 0
+		eachInstr(setPayloadLength, func(in ssa.Instruction) {
+			call, ok := in.(*ssa.Call)
+			if !ok {
+				return
+			}
+			o := calleeObj(call)
+			if o == nil || o.Pkg() == nil || o.Pkg().Path() != "encoding/binary" || (o.Name() != "PutUint64" && o.Name() != "PutUint16") {
+				return
+			}
+			n++
+			need := int64(4) // PutUint16 into f[2:]
+			if o.Name() == "PutUint64" {
+				need = 10
+			}
+			roomy := false
+			eachInstr(setPayloadLength, func(x ssa.Instruction) {
+				ec, ok := x.(*ssa.Call)
+				if !ok || ec.Call.StaticCallee() == nil || ec.Call.StaticCallee().Origin() != extend && ec.Call.StaticCallee() != extend {
+					return
+				}
+				if k, isK := constInt(ec.Call.Args[1]); isK && k >= need && k <= hdrMax {
+					// the extension runs whenever the frame is shorter: reaching the write without it implies len >= k
+					if !reachableAvoiding(in, func(y ssa.Instruction) bool { return y == x }) {
+						roomy = true
+						return
+					}
+					for _, l := range guardsOf(x.Block()) {
+						if op, a, b, ok := l.cmp(); ok {
+							isLen := func(v ssa.Value) bool {
+								lc, ok := stripConv(v).(*ssa.Call)
+								if !ok {
+									return false
+								}
+								bi, ok := lc.Call.Value.(*ssa.Builtin)
+								return ok && bi.Name() == "len"
+							}
+							if (isLen(a) && op == token.LSS && isConstInt(b, k)) || (isLen(b) && op == token.GTR && isConstInt(a, k)) {
+								roomy = true
+							}
+						}
+					}
+				}
+			})
+			c.check(roomy, setPayloadLength, "header room", in.Pos(), "the slice is made header-sized before the extended length is written", "the extended payload length is written into a frame whose slice may be shorter than the header (a pooled frame last used for a short message): Write panics with an index out of range for a 16-bit or 64-bit length")
+		})
+		if n == 0 {
+			c.bad(setPayloadLength, "header room", setPayloadLength.Pos(), "setPayloadLength writes no extended length (anchor moved)")
+		}
+	}
+
 	c.rule("C16-R4", "a message above the configured maximum is refused before any frame is acquired or queued", 4)
 	for _, name := range []string{"Write", "AsyncWrite"} {
 		fn := p.Method(ws, "Stream", name)
@@ -366,7 +424,7 @@ func runC16(c *Ctx) {
 	_ = types.Universe
 
 	// ------------------------------------------------------------------------------------------------ R6
-	c.rule("C16-R6", "a frame is encoded into the write buffer once: when the transport write of CodecConn.WriteNext fails after Encode succeeded, either the write buffer is rolled back there or the blocking Flush does not keep (and later re-encode) that frame", 1)
+	c.rule("C16-R6", "a frame is encoded into the write buffer once: when the transport write of CodecConn.WriteNext fails after Encode succeeded, the blocking Flush does not keep (and later re-encode) that frame", 1)
 	{
 		bb := func(n string) *ssa.Function { return p.Method("sonic", "ByteBuffer", n) }
 		// (a) does WriteNext roll the write buffer back on the failing edge of the transport write?
@@ -428,7 +486,8 @@ func runC16(c *Ctx) {
 		if site == nil {
 			c.bad(flush, "retry", flush.Pos(), "Flush no longer writes through CodecConn.WriteNext (anchor moved)")
 		} else {
-			c.check(rollsBack || !keeps, flush, "retry after a failed write", site.Pos(), "a frame is never encoded twice", "when the transport write fails after the frame was encoded (a non-blocking socket whose send buffer fills up reports would-block mid-frame), CodecConn.WriteNext leaves the encoded bytes in the write buffer and Flush keeps the frame queued: the retry encodes it again and the peer receives the frame's bytes twice")
+			_ = rollsBack // dropping the buffer is no remedy: after a partial write the rest is owed to the peer (C19-R4 "keeps unsent bytes")
+			c.check(!keeps, flush, "retry after a failed write", site.Pos(), "a frame is never encoded twice", "when the transport write fails after the frame was encoded (a non-blocking socket whose send buffer fills up reports would-block mid-frame), CodecConn.WriteNext leaves the encoded bytes in the write buffer and Flush keeps the frame queued: the retry encodes it again and the peer receives the frame's bytes twice")
 		}
 	}
 }
